@@ -403,6 +403,16 @@ class CSSImportRule(cssrule.CSSRule):
                 if 'name' == typ:
                     self._seq[i] = (name, typ, item.line, item.col)
                     break
+            else:
+                if name is not None:
+                    # no name yet: it follows the media (or the href)
+                    after = [
+                        i
+                        for i, item in enumerate(self.seq)
+                        if item.type in ('href', 'media')
+                    ]
+                    if after:
+                        self._seq.insert(after[-1] + 1, name, 'name')
 
             # set title of imported sheet
             if self.styleSheet:
